@@ -28,7 +28,7 @@ func (w *world) buildMsg(sc, kind, variant string) lib.MessageI {
 	own, out, oth, stk := w.P[sc]["own"], w.P[sc]["out"], w.P[sc]["oth"], w.P[sc]["stk"]
 	switch kind {
 	case fsm.MessageSendName:
-		return &fsm.MessageSend{FromAddress: own.addr, ToAddress: recipient, Amount: 1000}
+		return &fsm.MessageSend{FromAddress: own.addr, ToAddress: recipient, Amount: 1000 + w.j}
 	case fsm.MessageStakeName:
 		m := &fsm.MessageStake{PublicKey: stk.pubBytes(), Amount: valStake, Committees: []uint64{idleChain}, OutputAddress: out.addr, Compound: true}
 		if sc == "bls" {
@@ -41,7 +41,7 @@ func (w *world) buildMsg(sc, kind, variant string) lib.MessageI {
 		}
 		return m
 	case fsm.MessageEditStakeName:
-		m := &fsm.MessageEditStake{Address: own.addr, Amount: valStake + 1000, Committees: []uint64{idleChain}, NetAddress: netAddr, OutputAddress: out.addr, Compound: true}
+		m := &fsm.MessageEditStake{Address: own.addr, Amount: valStake + 1000 + w.j, Committees: []uint64{idleChain}, NetAddress: netAddr, OutputAddress: out.addr, Compound: true}
 		switch variant {
 		case "redirect":
 			m.OutputAddress = oth.addr // change where the stake is paid out
@@ -62,24 +62,24 @@ func (w *world) buildMsg(sc, kind, variant string) lib.MessageI {
 		}
 		return &fsm.MessageChangeParameter{ParameterSpace: "fee", ParameterKey: fsm.ParamUnpauseFee, ParameterValue: a, StartHeight: 0, EndHeight: 100, Signer: own.addr}
 	case fsm.MessageDAOTransferName:
-		return &fsm.MessageDAOTransfer{Address: own.addr, Amount: 5000, StartHeight: 0, EndHeight: 100}
+		return &fsm.MessageDAOTransfer{Address: own.addr, Amount: 5000 + w.j, StartHeight: 0, EndHeight: 100}
 	case fsm.MessageCertificateResultsName:
 		if variant == "partial-qc" {
 			return &fsm.MessageCertificateResults{Qc: w.buildQC(own.pubBytes(), []int{0, 1})} // half of the power: no +2/3
 		}
 		return &fsm.MessageCertificateResults{Qc: w.buildQC(own.pubBytes(), []int{0, 1, 2, 3})}
 	case fsm.MessageSubsidyName:
-		return &fsm.MessageSubsidy{Address: own.addr, ChainId: otherChain, Amount: 7000}
+		return &fsm.MessageSubsidy{Address: own.addr, ChainId: otherChain, Amount: 7000 + w.j}
 	case fsm.MessageCreateOrderName:
 		return &fsm.MessageCreateOrder{ChainId: otherChain, AmountForSale: orderAmount, RequestedAmount: orderAmount / 2, SellerReceiveAddress: recvAddr(sc), SellersSendAddress: own.addr}
 	case fsm.MessageEditOrderName:
-		return &fsm.MessageEditOrder{OrderId: orderID(sc), ChainId: otherChain, AmountForSale: orderAmount + 3000, RequestedAmount: orderAmount / 2, SellerReceiveAddress: newRecv}
+		return &fsm.MessageEditOrder{OrderId: orderID(sc), ChainId: otherChain, AmountForSale: orderAmount + 3000 + w.j, RequestedAmount: orderAmount / 2, SellerReceiveAddress: newRecv}
 	case fsm.MessageDeleteOrderName:
 		return &fsm.MessageDeleteOrder{OrderId: orderID(sc), ChainId: otherChain}
 	case fsm.MessageDexLimitOrderName:
-		return &fsm.MessageDexLimitOrder{ChainId: otherChain, AmountForSale: 9000, RequestedAmount: 1, Address: own.addr}
+		return &fsm.MessageDexLimitOrder{ChainId: otherChain, AmountForSale: 9000 + w.j, RequestedAmount: 1, Address: own.addr}
 	case fsm.MessageDexLiquidityDepositName:
-		return &fsm.MessageDexLiquidityDeposit{ChainId: otherChain, Amount: 8000, Address: own.addr}
+		return &fsm.MessageDexLiquidityDeposit{ChainId: otherChain, Amount: 8000 + w.j, Address: own.addr}
 	case fsm.MessageDexLiquidityWithdrawName:
 		return &fsm.MessageDexLiquidityWithdraw{ChainId: otherChain, Percent: 50, Address: own.addr}
 	}
@@ -135,7 +135,7 @@ func (w *world) envelope(msg lib.MessageI, kind string) *lib.Transaction {
 		panic(err)
 	}
 	tx := ti.(*lib.Transaction)
-	tx.Time = txTime
+	tx.Time = txTime + w.j
 	tx.Signature = nil
 	return tx
 }
@@ -151,7 +151,7 @@ func (w *world) crossCheckConstructors(sc string) error {
 	type mk func() (lib.TransactionI, lib.ErrorI)
 	ctor := map[string]mk{
 		fsm.MessageSendName: func() (lib.TransactionI, lib.ErrorI) {
-			return fsm.NewSendTransaction(own.key.priv, crypto.NewAddress(recipient), 1000, n, c, w.fees[fsm.MessageSendName], h, "")
+			return fsm.NewSendTransaction(own.key.priv, crypto.NewAddress(recipient), 1000+w.j, n, c, w.fees[fsm.MessageSendName], h, "")
 		},
 		fsm.MessageStakeName: func() (lib.TransactionI, lib.ErrorI) {
 			na := ""
@@ -161,7 +161,7 @@ func (w *world) crossCheckConstructors(sc string) error {
 			return fsm.NewStakeTx(stk.key.priv, stk.key.pub, crypto.NewAddress(out.addr), na, []uint64{idleChain}, valStake, n, c, w.fees[fsm.MessageStakeName], h, sc != "bls", false, "")
 		},
 		fsm.MessageEditStakeName: func() (lib.TransactionI, lib.ErrorI) {
-			return fsm.NewEditStakeTx(own.key.priv, crypto.NewAddress(own.addr), crypto.NewAddress(out.addr), netAddr, []uint64{idleChain}, valStake+1000, n, c, w.fees[fsm.MessageEditStakeName], h, false, "")
+			return fsm.NewEditStakeTx(own.key.priv, crypto.NewAddress(own.addr), crypto.NewAddress(out.addr), netAddr, []uint64{idleChain}, valStake+1000+w.j, n, c, w.fees[fsm.MessageEditStakeName], h, false, "")
 		},
 		fsm.MessageUnstakeName: func() (lib.TransactionI, lib.ErrorI) {
 			return fsm.NewUnstakeTx(own.key.priv, crypto.NewAddress(own.addr), n, c, w.fees[fsm.MessageUnstakeName], h, "")
@@ -176,25 +176,25 @@ func (w *world) crossCheckConstructors(sc string) error {
 			return fsm.NewChangeParamTxUint64(own.key.priv, "fee", fsm.ParamUnpauseFee, 12345, 0, 100, n, c, w.fees[fsm.MessageChangeParameterName], h, "")
 		},
 		fsm.MessageDAOTransferName: func() (lib.TransactionI, lib.ErrorI) {
-			return fsm.NewDAOTransferTx(own.key.priv, 5000, 0, 100, n, c, w.fees[fsm.MessageDAOTransferName], h, false, "")
+			return fsm.NewDAOTransferTx(own.key.priv, 5000+w.j, 0, 100, n, c, w.fees[fsm.MessageDAOTransferName], h, false, "")
 		},
 		fsm.MessageSubsidyName: func() (lib.TransactionI, lib.ErrorI) {
-			return fsm.NewSubsidyTx(own.key.priv, 7000, otherChain, nil, n, c, w.fees[fsm.MessageSubsidyName], h, "")
+			return fsm.NewSubsidyTx(own.key.priv, 7000+w.j, otherChain, nil, n, c, w.fees[fsm.MessageSubsidyName], h, "")
 		},
 		fsm.MessageCreateOrderName: func() (lib.TransactionI, lib.ErrorI) {
 			return fsm.NewCreateOrderTx(own.key.priv, orderAmount, orderAmount/2, otherChain, nil, recvAddr(sc), n, c, w.fees[fsm.MessageCreateOrderName], h, "")
 		},
 		fsm.MessageEditOrderName: func() (lib.TransactionI, lib.ErrorI) {
-			return fsm.NewEditOrderTx(own.key.priv, hex.EncodeToString(orderID(sc)), orderAmount+3000, orderAmount/2, otherChain, nil, newRecv, n, c, w.fees[fsm.MessageEditOrderName], h, "")
+			return fsm.NewEditOrderTx(own.key.priv, hex.EncodeToString(orderID(sc)), orderAmount+3000+w.j, orderAmount/2, otherChain, nil, newRecv, n, c, w.fees[fsm.MessageEditOrderName], h, "")
 		},
 		fsm.MessageDeleteOrderName: func() (lib.TransactionI, lib.ErrorI) {
 			return fsm.NewDeleteOrderTx(own.key.priv, hex.EncodeToString(orderID(sc)), otherChain, n, c, w.fees[fsm.MessageDeleteOrderName], h, "")
 		},
 		fsm.MessageDexLimitOrderName: func() (lib.TransactionI, lib.ErrorI) {
-			return fsm.NewDexLimitOrder(own.key.priv, 9000, 1, otherChain, n, c, w.fees[fsm.MessageDexLimitOrderName], h, "")
+			return fsm.NewDexLimitOrder(own.key.priv, 9000+w.j, 1, otherChain, n, c, w.fees[fsm.MessageDexLimitOrderName], h, "")
 		},
 		fsm.MessageDexLiquidityDepositName: func() (lib.TransactionI, lib.ErrorI) {
-			return fsm.NewDexLiquidityDeposit(own.key.priv, 8000, otherChain, n, c, w.fees[fsm.MessageDexLiquidityDepositName], h, "")
+			return fsm.NewDexLiquidityDeposit(own.key.priv, 8000+w.j, otherChain, n, c, w.fees[fsm.MessageDexLiquidityDepositName], h, "")
 		},
 		fsm.MessageDexLiquidityWithdrawName: func() (lib.TransactionI, lib.ErrorI) {
 			return fsm.NewDexLiquidityWithdraw(own.key.priv, 50, otherChain, n, c, w.fees[fsm.MessageDexLiquidityWithdrawName], h, "")
@@ -572,7 +572,7 @@ var tampers = []tamper{
 	{"nonce", func(w *world, sc string, tx *lib.Transaction) bool { tx.Nonce++; return true }},
 	{"signature", func(w *world, sc string, tx *lib.Transaction) bool {
 		s := append([]byte{}, tx.Signature.Signature...)
-		s[len(s)-1] ^= 1
+		s[w.rng.Intn(len(s))] ^= byte(1) << uint(w.rng.Intn(8))
 		tx.Signature.Signature = s
 		return true
 	}},
